@@ -764,8 +764,11 @@ func init() {
 			}
 			st := c.R.StartStage("random-long", "seeded random lexemes: mantissas up to 400+400 digits (uniform / {0,1,5,9} / mostly 9 / mostly 0), exponents small, near 2^31, near 2^63, near 2^64, with leading zeros; 3 precisions each out of -1..20 and around the digit count; non-trivial = output differs from input")
 			b := newBatch(st)
+			// h.NewRNG(seed) starts at seed*phi+const and steps by phi, so consecutive seeds yield the same stream
+			// shifted by one; decorrelate the seeds before forking the per-case generators.
+			rng := &h.RNG{S: c.Rng.Next() ^ ((c.Seed + 1) * 0xD6E8FEB86659FD93)}
 			for i := 0; i < n; i++ {
-				r := c.Rng.Fork()
+				r := rng.Fork()
 				dec := r.Chance(30)
 				s := c08RandLexeme(r, !dec)
 				_, hasExp, ok := c08Parse(s)
